@@ -45,8 +45,8 @@ def run_real(text, cls="IntArray", timeout=1800):
     return rc, out.split("\n")
 
 
-def run_spec(text, timeout=1800):
-    rc, out = lib.sh([sys.executable, HARNESS, "--mode", "spec"], stdin=text, timeout=timeout)
+def run_spec(text, timeout=1800, quirks=""):
+    rc, out = lib.sh([sys.executable, HARNESS, "--mode", "spec"] + (["--quirks", quirks] if quirks else []), stdin=text, timeout=timeout)
     return rc, out.split("\n")
 
 
@@ -88,6 +88,8 @@ def server(kind, cls="IntArray", cfg=CURRENT):
             sv = Server([DRV] + cfg_args(cfg))
         elif kind == "real":
             sv = Server([pyimath.PYTHON, HARNESS, "--mode", "real", "--cls", cls, "--flush"], env=pyimath.env())
+        elif kind == "specq":
+            sv = Server([sys.executable, HARNESS, "--mode", "spec", "--flush", "--quirks", KNOWN_QUIRKS])
         else:
             sv = Server([sys.executable, HARNESS, "--mode", "spec", "--flush"])
         _servers[key] = sv
@@ -150,22 +152,55 @@ def spec_line_equal(s, r):
     return s == r
 
 
-def compare_spec_real(index, lines, spec, real):
-    """-> (deviations, aliased, n). deviation: (program_no, kind, op_offset, spec_line, real_line)."""
-    dev, aliased, n = [], 0, 0
+KNOWN_QUIRKS = "maskonmasked"
+MASK_KEY = "setitem-scalar-mask-on-masked-ref-ignores-mask"
+
+
+def walk_spec_real(spec, specq, real, first, cnt):
+    """one program against the list specification.  `spec` = plain list semantics, `specq` = the same executor REPRODUCING the
+    recorded open deviation exactly (mask-on-masked: every referenced element written although the mask selected a subset;
+    lines where that took effect carry the prefix `quirk `).  The program is compared with `spec` up to its first deviation; if
+    the real line is then exactly what `specq` gives on a `quirk` line, the deviation IS the recorded one: it is counted under
+    its key and the comparison CONTINUES against `specq` (the specification re-synchronised with the real state).  Any other
+    difference — also a wrong element on a mask-on-masked line — is an unknown deviation and ends the program.
+    -> (known [(k, spec_line, real_line)], unknown (k, spec_line, real_line) | None, aliased 0/1, lines compared)"""
+    known, n = [], 0
+    ref = spec
+    for k in range(cnt):
+        ln = first + k
+        s = norm(ref[ln]) if ln < len(ref) else "<missing>"
+        r = norm(real[ln]) if ln < len(real) else "<missing>"
+        if s.startswith("alias "):
+            return known, None, 1, n
+        n += 1
+        isq = s.startswith("quirk ")
+        if isq:
+            s = s[6:]
+        if spec_line_equal(s, r):
+            if isq:
+                known.append((k, norm(spec[ln]) if ref is spec else "list semantics: only the elements the mask selects", r))
+            continue
+        if ref is spec and specq is not None:
+            q = norm(specq[ln]) if ln < len(specq) else "<missing>"
+            if q.startswith("quirk ") and spec_line_equal(q[6:], r):
+                known.append((k, s, r))
+                ref = specq
+                continue
+        return known, (k, s, r), 0, n
+    return known, None, 0, n
+
+
+def compare_spec_real(index, lines, spec, real, specq=None):
+    """-> (unknown deviations, aliased, n, known deviations). deviation: (program_no, kind, op_offset, spec_line, real_line)."""
+    dev, aliased, n, known = [], 0, 0, []
     for pno, (kind, first, cnt) in enumerate(index):
-        for k in range(cnt):
-            ln = first + k
-            s = norm(spec[ln]) if ln < len(spec) else "<missing>"
-            r = norm(real[ln]) if ln < len(real) else "<missing>"
-            if s.startswith("alias "):
-                aliased += 1
-                break
-            n += 1
-            if not spec_line_equal(s, r):
-                dev.append((pno, kind, k, s, r))
-                break
-    return dev, aliased, n
+        kn, unk, al, nn = walk_spec_real(spec, specq, real, first, cnt)
+        aliased += al
+        n += nn
+        known += [(pno, kind, k, a, b) for (k, a, b) in kn]
+        if unk is not None:
+            dev.append((pno, kind) + unk)
+    return dev, aliased, n, known
 
 
 def program_lines(index, lines, pno):
@@ -199,10 +234,6 @@ def classify(prog, k, spec_line, real_line):
     if op == "v":
         if t[1] in ("size", "sizemask"):
             return VSIZE_KEY
-        if t[1] in ("setrowmask", "setsizemask") and "ok" in real_line.split(";")[0]:
-            # the documented quirk of `*_scalar_mask` on a masked reference (the mask is not looked at), duplicated in
-            # FixedVArray::setitem_scalar_mask and SizeHelper::setitem_scalar_mask
-            return "setitem-scalar-mask-on-masked-ref-ignores-mask"
         return "spec:v-%s" % t[1]
     # a deviation on / after taking the component array OF A MASKED REFERENCE (any other component deviation, e.g. a
     # write through the component array of a read-only dense array, keeps its own `spec:` key)
@@ -217,8 +248,7 @@ def classify(prog, k, spec_line, real_line):
         return "slice-negstep-start-below-range-raises"
     if op in ("ifelses", "ifelsev") and "readonly" in vk and "readOnly" in real_line:
         return "ifelse-on-readonly-source-raises"
-    if op == "setscalarmask" and vk.startswith("masked"):
-        return "setitem-scalar-mask-on-masked-ref-ignores-mask"
+    # (the open mask-on-masked finding is recognised by its exact effect in walk_spec_real, never by operation / view kind)
     if op == "convert" or "EXC(" in real_line:
         return "convert-ctor-from-masked"
     return "spec:%s:%s" % (op, vk)
@@ -303,17 +333,17 @@ def first_model_real_mismatch(prog, cfg, cls="IntArray"):
 
 
 def first_spec_real_deviation(prog, cls="IntArray"):
+    """-> (k, model_lines, spec_line, real_line, key) of the first deviation from list semantics (known or not)"""
     s = server("spec").run(prog)
+    q = server("specq").run(prog)
     r = server("real", cls).run(prog)
     m = server("model").run(prog)
-    for k in range(len(prog)):
-        a = norm(s[k]) if k < len(s) else "<missing>"
-        b = norm(r[k]) if k < len(r) else "<missing>"
-        if a.startswith("alias "):
-            return None, m, None, None
-        if not spec_line_equal(a, b):
-            return k, m, a, b
-    return None, m, None, None
+    kn, unk, al, n = walk_spec_real([""] + s, [""] + q, [""] + r, 1, len(prog))
+    ev = sorted([(k, a, b, MASK_KEY) for (k, a, b) in kn] + ([unk + (None,)] if unk else []))
+    if not ev:
+        return None, m, None, None, None
+    k, a, b, key = ev[0]
+    return k, m, a, b, key or classify(prog, k, a, b)
 
 
 def corpus_programs():
